@@ -1103,11 +1103,26 @@ def propagate_toplevel(formula: FNode, env: Optional["pysmt.environment.Environm
     disjoint_set = DisjointSet(compare_fun=compare)
     relevant = set()
 
+    # Symbols that are bound by some quantifier of the formula are not
+    # propagated: replacing them (or replacing another symbol by them)
+    # below that quantifier would capture the variable.
+    bound = set()
+    to_visit, visited = [formula], set()
+    while to_visit:
+        cur = to_visit.pop()
+        if cur not in visited:
+            visited.add(cur)
+            if cur.is_quantifier():
+                bound.update(cur.quantifier_vars())
+            to_visit.extend(cur.args())
+
     for c in conjunctive_partition(formula):
         if c.is_equals():
             l, r = c.args()
             if l.is_array_value() or r.is_array_value():
                 # skipping constant arrays
+                continue
+            if l in bound or r in bound:
                 continue
             if (l.is_symbol() or l.is_constant()) and\
                (r.is_symbol() or r.is_constant()):
